@@ -684,6 +684,11 @@ def run_check(pid, tier, seed):
     if tools_ok and driver_ok:
         if cfg.get('l0'):
             run_l0(rep)
+            if tier == 'thorough':
+                # two further seeds of the random generators (the exhaustive parts repeat and are counted once)
+                for k in (1, 2):
+                    run_l0(rep, seed=rep.seed + 1000 * k, tag=f'{pid}_{tier}_{rep.seed}_x{k}')
+                rep.notes.append('thorough: L0 generators run with three seeds')
         if cfg.get('live'):
             run_live(rep)
         if cfg.get('race_search') and tier == 'thorough':
